@@ -98,6 +98,9 @@ func allZero(b []byte) bool {
 // succeed on a healthy, unpaused environment". Deliberately narrow.
 func (s *Sim) knownGood(in *PktInfo) (bool, string) {
 	p := in.Payload
+	if p.Swap != nil {
+		return false, "denomination-changing test action"
+	}
 	if !in.AmountOK || in.DenomClass != "one-hop" {
 		return false, "amount/denom"
 	}
@@ -328,6 +331,9 @@ func (s *Sim) mustRefuseReason(in *PktInfo) (prop, reason string) {
 	if p.HasFee && s.Model.PausedAct["ACTION_FEE"] {
 		return "C09", "action-paused"
 	}
+	if p.Swap != nil && s.Model.PausedAct["ACTION_SWAP"] {
+		return "C09", "action-paused"
+	}
 	if uint64(len(p.Passthrough)) > s.Model.Limit {
 		return "C18", "passthrough-over-limit"
 	}
@@ -406,8 +412,12 @@ func (s *Sim) onAccepted(p *Pkt, in *PktInfo, mo *MsgObs) {
 	// ---- the coin ICS-20 released (read from the ledger, not recomputed)
 	var inflows []Flow
 	inIdx := -1
+	poolAddr := ""
+	if s.ModeB != nil {
+		poolAddr = e.Pool.Addr.String() // the test swap action's pool pays the orbiter account by design
+	}
 	for i, f := range mo.Flows {
-		if f.To == orb && f.From != orb {
+		if f.To == orb && f.From != orb && f.From != poolAddr {
 			inflows = append(inflows, f)
 			if inIdx < 0 {
 				inIdx = i
@@ -455,6 +465,16 @@ func (s *Sim) onAccepted(p *Pkt, in *PktInfo, mo *MsgObs) {
 			s.violate("C01", "R2-whole-coin-left", "orbiter-other-denom", fmt.Sprintf("packet op=%d: orbiter %s changed by %s during a %s transfer", p.Origin, denom, v, c.Denom))
 		}
 	}
+	if in.Payload != nil && in.Canon && in.Payload.Swap != nil {
+		s.onAcceptedSwap(p, in, c, post)
+		return
+	}
+	if poolAddr != "" && flowsTouch(post, poolAddr) {
+		// a non-canonical spelling of a payload with the test swap action: the single-denomination rules do not apply
+		s.statsTainted = true
+		s.Stats.Probe("stats_model_tainted_by_noncanonical_success")
+		return
+	}
 	// ---- C02 conservation over the whole ledger
 	var outs []Flow // orbiter's outflows after the credit (the sweep happened before it)
 	for _, f := range post {
@@ -477,18 +497,7 @@ func (s *Sim) onAccepted(p *Pkt, in *PktInfo, mo *MsgObs) {
 	if sum.Cmp(c.Amt) != 0 {
 		s.violate("C02", "conservation", "fees-plus-out-ne-received", fmt.Sprintf("packet op=%d: received %s, paid out %s (%v)", p.Origin, c.Amt, sum, renderFlows(e, outs)))
 	}
-	for _, f := range outs {
-		if strings.HasPrefix(e.Name(f.To), "escrow") {
-			if s.escrowGifts == nil {
-				s.escrowGifts = map[string]*big.Int{}
-			}
-			k := f.To + "/" + f.Denom
-			if s.escrowGifts[k] == nil {
-				s.escrowGifts[k] = new(big.Int)
-			}
-			s.escrowGifts[k].Add(s.escrowGifts[k], f.Amt)
-		}
-	}
+	s.noteEscrowGifts(outs)
 	sink := outs[len(outs)-1]
 	out := sink.Amt
 	feeFlows := outs[:len(outs)-1]
@@ -1180,4 +1189,80 @@ func (s *Sim) hasByz() bool {
 		}
 	}
 	return false
+}
+
+// onAcceptedSwap: a transfer whose payload contains the denomination-changing test action (mode B).
+// Order of actions on the running coin (C06) and the two-entry statistics fold (C12).
+func (s *Sim) onAcceptedSwap(p *Pkt, in *PktInfo, c Flow, post []Flow) {
+	e := s.Env
+	orb := e.Orbiter.String()
+	pool := e.Pool.Addr.String()
+	pl := in.Payload
+	s.Stats.Count("rule:C06.order-in-history")
+	if !in.AmountOK {
+		s.statsTainted = true
+		return
+	}
+	if prop, reason := s.mustRefuseReason(in); prop != "" {
+		s.violate(prop, "enforcement", "accepted-while-"+reason, fmt.Sprintf("packet op=%d (swap payload)", p.Origin))
+	}
+	ok, fDenom, fAmt, wantSends := modelFold(in.Amount, c.Denom, pl.actions())
+	if !ok {
+		s.violate("C06", "order-on-running-amount", "accepted-though-an-action-must-refuse", fmt.Sprintf("packet op=%d", p.Origin))
+		s.statsTainted = true
+		return
+	}
+	var outs []Flow
+	for _, f := range post {
+		if f.From == orb && f.To != pool {
+			outs = append(outs, f)
+		}
+	}
+	if len(outs) == 0 {
+		s.violate("C06", "final-coin-forwarded", "nothing-forwarded", fmt.Sprintf("packet op=%d", p.Origin))
+		s.statsTainted = true
+		return
+	}
+	s.noteEscrowGifts(outs)
+	sink := outs[len(outs)-1]
+	var gotSends []string
+	for _, f := range outs[:len(outs)-1] {
+		gotSends = append(gotSends, fmt.Sprintf("%s %s%s", f.To, f.Amt, f.Denom))
+	}
+	if !sameStrs(gotSends, wantSends) {
+		s.violate("C06", "order-on-running-amount", "per-action-credits-differ", fmt.Sprintf("packet op=%d: fee sends %v, expected %v", p.Origin, gotSends, wantSends))
+	}
+	if sink.Amt.Cmp(fAmt) != 0 || sink.Denom != fDenom {
+		s.violate("C06", "final-coin-forwarded", "forwarded-coin-differs", fmt.Sprintf("packet op=%d: forwarded %s%s, the last action left %s%s", p.Origin, sink.Amt, sink.Denom, fAmt, fDenom))
+	}
+	// statistics: one entry when the denomination is unchanged, two otherwise
+	pn, cp := protoNum(pl.Proto), pl.Counterparty()
+	if fDenom == c.Denom {
+		s.Model.AddStat(p.DstChan, pn, cp, c.Denom, c.Amt, fAmt)
+	} else {
+		s.Model.AddStat(p.DstChan, pn, cp, c.Denom, c.Amt, new(big.Int))
+		s.Model.AddStat(p.DstChan, pn, cp, fDenom, new(big.Int), fAmt)
+		s.Stats.Probe("two_statistics_entries_per_transfer")
+	}
+	s.Model.AddCount(p.DstChan, pn, cp)
+	if pl.Proto != "PROTOCOL_INTERNAL" {
+		p.OutMsgs++ // counted from the ledger sink here; the typed-event comparison is C05's business
+	}
+}
+
+// noteEscrowGifts: fees paid to a channel escrow address raise its balance without vouchers (harness bookkeeping
+// for the end-of-run escrow = vouchers sanity check).
+func (s *Sim) noteEscrowGifts(outs []Flow) {
+	for _, f := range outs {
+		if strings.HasPrefix(s.Env.Name(f.To), "escrow") {
+			if s.escrowGifts == nil {
+				s.escrowGifts = map[string]*big.Int{}
+			}
+			k := f.To + "/" + f.Denom
+			if s.escrowGifts[k] == nil {
+				s.escrowGifts[k] = new(big.Int)
+			}
+			s.escrowGifts[k].Add(s.escrowGifts[k], f.Amt)
+		}
+	}
 }
